@@ -527,17 +527,19 @@ Section Core.
         match nt st with
         | TArrayWildcard =>
           do st <- advance2 st;
-          Ok (Some (match node with
-                    | None => NSelectArraySingleCurrent NObjectValuesCurrent
-                    | Some n => NSelectArraySingle n NObjectValuesCurrent end, st))
-        | TOpenBrace => do st <- advance2 st; do r <- select_object node st; Ok (Some r)
-        | TOpenSqBrace => do st <- advance2 st; do r <- select_array node st; Ok (Some r)
+          Ok (Some (NSelectArraySingle (match node with None => NCurrent | Some n => n end) NObjectValuesCurrent, st))
+        | TOpenBrace =>
+          do st <- advance2 st;
+          do r <- select_object (Some (match node with None => NCurrent | Some n => n end)) st; Ok (Some r)
+        | TOpenSqBrace =>
+          do st <- advance2 st;
+          do r <- select_array (Some (match node with None => NCurrent | Some n => n end)) st; Ok (Some r)
         | TQuotedIdentifier | TUnquotedIdentifier =>
           do st <- advance st;
           do r <- expr newPrec st; let '(rhs, st) := r in
           Ok (Some (match node with
                     | None => rhs
-                    | Some n => if is_project_node n then NProjectArray n rhs else NPipe n rhs
+                    | Some n => NPipe n rhs
                     end, st))
         | _ => unexpected_curr st
         end
